@@ -7,17 +7,22 @@
 import TuModel.Lemmas.PipeProg
 namespace Tu.C05
 open Tu
--- `pipe_safety` does not use `1 ≤ W` and `pipe_measure` uses neither `1 ≤ W` nor reachability; the
--- hypotheses are kept so that all four statements have the same shape
+-- `pipe_safety` does not use `1 ≤ W` and `pipe_measure` does not use `1 ≤ W`; the hypotheses are kept so that
+-- all statements have the same shape
 set_option linter.unusedVariables false
 
-/-- no loss, no duplication, no reordering, each item processed at most once — in every reachable state -/
-theorem pipe_safety (W n : Nat) (hW : 1 ≤ W) (s : PState) (h : PReach W n s) :
-    s.next ≤ n ∧ s.chan.length ≤ W ∧ (∀ i, s.calls i ≤ 1) ∧
+/-! ### any upstream (`src k` = the `k`-th call of `upstream.next()` yields an item; it need not be fused) -/
+
+/-- no loss, no duplication, no reordering, each item processed at most once — in every reachable state;
+the `enumerate` counter is the number of items among the answers so far, and every `None` ended a worker of
+its own, so at most `W` of them were consumed -/
+theorem pipe_safety_gen (W : Nat) (src : Nat → Bool) (hW : 1 ≤ W) (s : PState) (h : PReach W src s) :
+    s.next = itemsBefore src s.pulls ∧ s.chan.length ≤ W ∧ (∀ i, s.calls i ≤ 1) ∧
     (s.dropped = false → s.recvd ++ s.chan = List.range (s.recvd ++ s.chan).length) ∧
-    (∀ w w' i, w < W → w' < W → holds s w i → holds s w' i → w = w') := by
+    (∀ w w' i, w < W → w' < W → holds s w i → holds s w' i → w = w') ∧
+    gapsBefore src s.pulls ≤ W := by
   have hi := inv_reach h
-  refine ⟨hi.next_le, hi.chan_le, ?_, hi.fifo, ?_⟩
+  refine ⟨hi.next_eq, hi.chan_le, ?_, hi.fifo, ?_, ?_⟩
   · intro i
     by_cases h1 : s.next ≤ i
     · rw [hi.calls_hi i h1]; omega
@@ -27,14 +32,15 @@ theorem pipe_safety (W n : Nat) (hW : 1 ≤ W) (s : PState) (h : PReach W n s) :
       · rw [hi.calls_done i (by omega) (fun w hw hpc => h2 ⟨w, hw, hpc⟩)]; omega
   · intro w w' i hw hw' h1 h2
     exact hi.held_uniq w w' i hw hw' ((holds_iff s w i).mp h1) ((holds_iff s w' i).mp h2)
+  · exact Nat.le_trans hi.gaps_le (exSum_le s.pc W)
 
-/-- when the iteration has ended (the consumer got `None`) it delivered exactly `f x0, f x1, …` in
-order and every item was processed exactly once -/
-theorem pipe_complete (W n : Nat) (hW : 1 ≤ W) (s : PState) (h : PReach W n s) (hc : s.closed = true) :
-    s.recvd = List.range n ∧ ∀ i, i < n → s.calls i = 1 := by
+/-- when the iteration has ended (the consumer got `None`) it delivered exactly the items that come before
+the `W`-th `None` of the upstream, in order, and every one of them was processed exactly once -/
+theorem pipe_complete_gen (W : Nat) (src : Nat → Bool) (hW : 1 ≤ W) (s : PState) (h : PReach W src s)
+    (hc : s.closed = true) :
+    s.recvd = List.range s.next ∧ (∀ i, i < s.next → s.calls i = 1) ∧ gapsBefore src s.pulls = W := by
   have hi := inv_reach h
   obtain ⟨hall, hch, hdr⟩ := hi.closed_ hc
-  have hnext : s.next = n := hi.exited_ hdr 0 (by omega) (hall 0 (by omega))
   have hturn : s.turn = s.next := by
     apply Classical.byContradiction
     intro hne
@@ -46,18 +52,36 @@ theorem pipe_complete (W n : Nat) (hW : 1 ≤ W) (s : PState) (h : PReach W n s)
     · exact hl
     · rw [hall u hu] at hpc; cases hpc
   have hf := hi.fifo hdr
-  rw [hL, hch, List.append_nil, hturn, hnext] at hf
-  refine ⟨hf, ?_⟩
-  intro i hin
-  apply hi.calls_done i (by omega)
-  intro w hw
-  rw [hall w hw]; simp
+  rw [hL, hch, List.append_nil, hturn] at hf
+  refine ⟨hf, ?_, ?_⟩
+  · intro i hin
+    apply hi.calls_done i hin
+    intro w hw
+    rw [hall w hw]; simp
+  · rw [← hi.gaps_eq hdr]; exact exSum_all s.pc W hall
 
-/-- no deadlock: unless the consumer is done, some step that makes progress is enabled -/
-theorem pipe_deadlock_free (W n : Nat) (hW : 1 ≤ W) (s : PState) (h : PReach W n s)
-    (hc : s.closed = false) (hd : s.dropped = false) :
-    ∃ a s', a ≠ PAction.drop ∧ pstep s a = some s' ∧ pmeasure s' < pmeasure s := by
+/-- the position of the end: no call of `upstream.next()` is made after the `W`-th `None` -/
+theorem pipe_pulls_minimal (W : Nat) (src : Nat → Bool) (hW : 1 ≤ W) (s : PState) (h : PReach W src s) :
+    ∀ k, k < s.pulls → gapsBefore src k < W :=
+  (inv_reach h).pulls_min
+
+/-- the closed formula: over the upstream that answers as `entries` and then `None` for ever, a completed
+iteration delivered `gapDelivered W entries` items -/
+theorem pipe_complete_gapDelivered (W : Nat) (entries : List Bool) (hW : 1 ≤ W) (s : PState)
+    (h : PReach W (srcOf entries) s) (hc : s.closed = true) :
+    s.recvd = List.range (gapDelivered W entries) := by
   have hi := inv_reach h
+  obtain ⟨hr, _, hg⟩ := pipe_complete_gen W (srcOf entries) hW s h hc
+  rw [hr, hi.next_eq, gapDelivered_spec entries W s.pulls hg hi.pulls_min]
+
+/-- no deadlock: unless the consumer is done, some step that makes progress is enabled (for an upstream
+that is exhausted from its `N`-th call on) -/
+theorem pipe_deadlock_free_gen (W : Nat) (src : Nat → Bool) (hW : 1 ≤ W) (N : Nat)
+    (hN : ∀ k, N ≤ k → src k = false) (s : PState) (h : PReach W src s)
+    (hc : s.closed = false) (hd : s.dropped = false) :
+    ∃ a s', a ≠ PAction.drop ∧ pstep s a = some s' ∧ pmeasure N s' < pmeasure N s := by
+  have hi := inv_reach h
+  have hN' : ∀ k, N ≤ k → s.src k = false := by rw [hi.hsrc]; exact hN
   cases hch : s.chan with
   | cons x rest =>
     -- something is queued: the consumer can receive
@@ -82,26 +106,77 @@ theorem pipe_deadlock_free (W n : Nat) (hW : 1 ≤ W) (s : PState) (h : PReach W
         exact hcon ⟨w, hw, hne⟩
       obtain ⟨w, hw, hne⟩ := this
       have hroom : s.chan.length < s.W := by rw [hch, hi.hW]; simp; omega
-      obtain ⟨a, s', ha, _, _, hs, hm⟩ := worker_progress hi hw hne (Or.inr hroom)
+      obtain ⟨a, s', ha, _, _, hs, hm⟩ := worker_progress hi hN' hw hne (Or.inr hroom)
       exact ⟨a, s', ha, hs, hm⟩
 
 /-- every step other than `drop` is a stutter (failed spin) or strictly decreases the measure, so under a
+fair scheduler every run over an eventually exhausted upstream terminates -/
+theorem pipe_measure_gen (W : Nat) (src : Nat → Bool) (hW : 1 ≤ W) (N : Nat)
+    (hN : ∀ k, N ≤ k → src k = false) (s s' : PState) (a : PAction) (h : PReach W src s)
+    (ha : a ≠ PAction.drop) (hs : pstep s a = some s') : s' = s ∨ pmeasure N s' < pmeasure N s :=
+  pstep_measure (by rw [(inv_reach h).hsrc]; exact hN) ha hs
+
+/-! ### fused upstream of `n` items (`fused n`): the statements as they were before the generalisation -/
+
+theorem fused_exhausted (n : Nat) : ∀ k, n ≤ k → fused n k = false := fun _ h => fused_false h
+
+/-- no loss, no duplication, no reordering, each item processed at most once — in every reachable state -/
+theorem pipe_safety (W n : Nat) (hW : 1 ≤ W) (s : PState) (h : PReach W (fused n) s) :
+    s.next ≤ n ∧ s.chan.length ≤ W ∧ (∀ i, s.calls i ≤ 1) ∧
+    (s.dropped = false → s.recvd ++ s.chan = List.range (s.recvd ++ s.chan).length) ∧
+    (∀ w w' i, w < W → w' < W → holds s w i → holds s w' i → w = w') := by
+  obtain ⟨h1, h2, h3, h4, h5, _⟩ := pipe_safety_gen W (fused n) hW s h
+  refine ⟨?_, h2, h3, h4, h5⟩
+  rw [h1, itemsBefore_fused]; omega
+
+/-- when the iteration has ended (the consumer got `None`) it delivered exactly `f x0, f x1, …` in
+order and every item was processed exactly once -/
+theorem pipe_complete (W n : Nat) (hW : 1 ≤ W) (s : PState) (h : PReach W (fused n) s) (hc : s.closed = true) :
+    s.recvd = List.range n ∧ ∀ i, i < n → s.calls i = 1 := by
+  obtain ⟨h1, h2, h3⟩ := pipe_complete_gen W (fused n) hW s h hc
+  have hnext : s.next = n := by
+    rw [(inv_reach h).next_eq, itemsBefore_fused]
+    rw [gapsBefore_fused] at h3
+    omega
+  rw [hnext] at h1 h2
+  exact ⟨h1, h2⟩
+
+/-- no deadlock: unless the consumer is done, some step that makes progress is enabled -/
+theorem pipe_deadlock_free (W n : Nat) (hW : 1 ≤ W) (s : PState) (h : PReach W (fused n) s)
+    (hc : s.closed = false) (hd : s.dropped = false) :
+    ∃ a s', a ≠ PAction.drop ∧ pstep s a = some s' ∧ pmeasure n s' < pmeasure n s :=
+  pipe_deadlock_free_gen W (fused n) hW n (fused_exhausted n) s h hc hd
+
+/-- every step other than `drop` is a stutter (failed spin) or strictly decreases the measure, so under a
 fair scheduler every run terminates -/
-theorem pipe_measure (W n : Nat) (hW : 1 ≤ W) (s s' : PState) (a : PAction) (h : PReach W n s)
-    (ha : a ≠ PAction.drop) (hs : pstep s a = some s') : s' = s ∨ pmeasure s' < pmeasure s :=
-  pstep_measure ha hs
+theorem pipe_measure (W n : Nat) (hW : 1 ≤ W) (s s' : PState) (a : PAction) (h : PReach W (fused n) s)
+    (ha : a ≠ PAction.drop) (hs : pstep s a = some s') : s' = s ∨ pmeasure n s' < pmeasure n s :=
+  pipe_measure_gen W (fused n) hW n (fused_exhausted n) s s' a h ha hs
 
 /-! non-vacuity: concrete schedules reach `closed`, and the theorems apply to them -/
 
-example : (prun (PState.init 1 1) [.take 0, .compute 0, .spin 0, .send 0, .advance 0, .take 0, .recv, .close]).map
+example : (prun (PState.init 1 (fused 1)) [.take 0, .compute 0, .spin 0, .send 0, .advance 0, .take 0, .recv, .close]).map
     (fun s => (s.recvd, s.closed)) = some ([0], true) := by decide
 
 /-- two workers, three items, worker 1 overtakes worker 0 on computing but has to wait for its turn -/
-example : (prun (PState.init 2 3)
+example : (prun (PState.init 2 (fused 3))
     [.take 0, .take 1, .compute 1, .spin 1, .compute 0, .spin 0, .send 0, .advance 0, .spin 1, .send 1,
      .take 0, .recv, .compute 0, .advance 1, .take 1, .spin 0, .send 0, .advance 0, .take 0, .recv, .recv,
      .close]).map
     (fun s => (s.recvd, s.closed, s.next, s.turn, [s.calls 0, s.calls 1, s.calls 2])) =
     some ([0, 1, 2], true, 3, 3, [1, 1, 1]) := by decide
+
+/-- an upstream that is not fused, two workers: `Some, None, Some, None, Some`.  Worker 0 takes item 0, worker 1
+sees the first `None` and exits, worker 0 goes on alone, takes item 1, then sees the second `None`: the
+consumer gets items 0 and 1 and then `None`; the fifth answer is never asked for -/
+example : (prun (PState.init 2 (srcOf [true, false, true, false, true]))
+    [.take 0, .take 1, .compute 0, .spin 0, .send 0, .advance 0, .take 0, .recv, .compute 0, .spin 0, .send 0,
+     .advance 0, .take 0, .recv, .close]).map
+    (fun s => (s.recvd, s.closed, s.next, s.pulls, [s.calls 0, s.calls 1, s.calls 2])) =
+    some ([0, 1], true, 2, 4, [1, 1, 0]) := by decide
+
+example : gapDelivered 2 [true, false, true, false, true] = 2 := by decide
+example : gapDelivered 1 [true, true, false, true] = 2 ∧ gapDelivered 3 [true, false, true] = 2 ∧
+    gapDelivered 2 [false, false, true] = 0 := by decide
 
 end Tu.C05
